@@ -39,11 +39,15 @@ FAMILY_ALIAS = {"a": "g1", "b": "g10", "c": "g2", "d": "g20", "z": "g100"}
 FAMILY_ALIAS_ZEROS = {"a": "cas1", "b": "cas01", "c": "cas001", "d": "cas0001", "z": "cas00001"}
 
 
+# third spelling: names whose concatenations collide ("a" + "ba" = "ab" + "a" = "aba")
+FAMILY_ALIAS_GLUE = {"a": "a", "b": "ba", "c": "ab", "d": "aba", "z": "baab"}
+
+
 def presentation_of(leafmap):
     order = A.dict_order_of(leafmap)
     alias = None
     if order == "mid":
-        alias = FAMILY_ALIAS_ZEROS if sum(leafmap.values()) % 2 else FAMILY_ALIAS
+        alias = (FAMILY_ALIAS, FAMILY_ALIAS_ZEROS, FAMILY_ALIAS_GLUE)[sum(leafmap.values()) % 3]
     return {"alias": alias, "same_labels": order == "rev"}
 
 
